@@ -77,6 +77,74 @@ func c19Info(l *reference.LiteralInfo) string {
 	return strings.Join(parts, " ")
 }
 
+// ---- parse histories: the parsers are functions of their argument, whatever was parsed before
+var c19HistCounter int
+
+type c19HistForm struct {
+	name string
+	mk   func(id string) string
+	id   func(n int) string
+}
+
+func c19MkForm(name, format string) c19HistForm {
+	return c19HistForm{name: name, id: func(n int) string { return fmt.Sprintf("%012d", n) }, mk: func(id string) string { return fmt.Sprintf(format, id) }}
+}
+
+var c19HistForms = []c19HistForm{
+	c19MkForm("urn:uuid", "urn:uuid:00000000-0000-0000-0000-%s"), c19MkForm("urn:oid", "urn:oid:1.2.%s"), c19MkForm("non-rest-url", "http://example.org/not/fhir/%s"),
+	c19MkForm("relative", "Patient/%s"), c19MkForm("absolute", "https://h.example.org/fhir/Patient/%s/_history/2"), c19MkForm("canonical", "http://example.org/fhir/ValueSet/%s|1.0"),
+}
+
+var c19HistCalls = []struct {
+	name string
+	do   func(u string) string
+}{
+	{"LiteralInfoFromURI", func(u string) string {
+		var l *reference.LiteralInfo
+		var err error
+		if pi := core.Try(func() { l, err = reference.LiteralInfoFromURI(u) }); pi != nil {
+			return "PANIC " + pi.Key()
+		}
+		if err != nil {
+			return "error"
+		}
+		return c19Info(l)
+	}},
+	{"LiteralInfoOf(no type)", func(u string) string { return c19HistOf(u, "") }},
+	{"LiteralInfoOf(type Patient)", func(u string) string { return c19HistOf(u, "Patient") }},
+	{"LiteralInfoOf(type Observation)", func(u string) string { return c19HistOf(u, "Observation") }},
+	{"IdentityFromReference", func(u string) string {
+		var id *resource.Identity
+		var err error
+		if pi := core.Try(func() {
+			id, err = reference.IdentityOf(&dtpb.Reference{Reference: &dtpb.Reference_Uri{Uri: fhir.String(u)}})
+		}); pi != nil {
+			return "PANIC " + pi.Key()
+		}
+		if err != nil || id == nil {
+			return "error"
+		}
+		v, _ := id.VersionID()
+		return fmt.Sprintf("%s/%s/%s", id.Type(), id.ID(), v)
+	}},
+}
+
+func c19HistOf(u, typ string) string {
+	ref := &dtpb.Reference{Reference: &dtpb.Reference_Uri{Uri: fhir.String(u)}}
+	if typ != "" {
+		ref.Type = fhir.URI(typ)
+	}
+	var l *reference.LiteralInfo
+	var err error
+	if pi := core.Try(func() { l, err = reference.LiteralInfoOf(ref) }); pi != nil {
+		return "PANIC " + pi.Key()
+	}
+	if err != nil {
+		return "error:" + strings.SplitN(err.Error(), ":", 2)[0]
+	}
+	return c19Info(l)
+}
+
 func c19TryLit(s string) (info *reference.LiteralInfo, err error, pi *core.PanicInfo) {
 	pi = core.Try(func() { info, err = reference.LiteralInfoFromURI(s) })
 	return
@@ -135,13 +203,39 @@ var c19Seeds = []string{
 
 func init() {
 	core.Register(&core.Check{
-		ID: "C19",
-		Rule: "identities: resource type names (quick: 18 representatives incl. shortest/longest/prefix-related/trailing-d names; thorough: all 146) x 14 ids (valid edge lengths, invalid lengths and characters) x 6 versions x 10 service base URLs (none, ports, nested paths, % and $, trailing and doubled slashes, path segments that look like resources) in relative / absolute / versioned form; fragment, '#', URN uuid/oid, canonical url|version#fragment in all presence combinations, ''; every single edit (delete, insert or replace with one of 14 bytes, at every position) of 22 seed strings against every parser; typed (strong) vs weak references of the same resource incl. reading back through FHIRPath; reference.Is over all triples of a 26-reference pool; non-trivial = distinct (string, outcome)",
+		ID:          "C19",
+		Rule:        "identities: resource type names (quick: 18 representatives incl. shortest/longest/prefix-related/trailing-d names; thorough: all 146) x 14 ids (valid edge lengths, invalid lengths and characters) x 6 versions x 10 service base URLs (none, ports, nested paths, % and $, trailing and doubled slashes, path segments that look like resources) in relative / absolute / versioned form; fragment, '#', URN uuid/oid, canonical url|version#fragment in all presence combinations, ''; every single edit (delete, insert or replace with one of 14 bytes, at every position) of 22 seed strings against every parser; typed (strong) vs weak references of the same resource incl. reading back through FHIRPath; reference.Is over all triples of a 26-reference pool; non-trivial = distinct (string, outcome)",
 		Assumptions: []string{"FHIR id alphabet [A-Za-z0-9.-]{1,64} decides which generated ids/versions are valid", "google/fhir jsonformat.NormalizeReference builds the typed form"},
 		Subs: func(tier string) []core.Sub {
 			types := c19TypeNames(tier)
 			pool := c19IsPool()
 			return []core.Sub{
+				{Name: "parse-histories", N: c10Count(len(c19HistCalls), 3) * len(c19HistForms), Note: "(first, so that process-wide parser state is still nearly empty) every sequence of <=3 parse calls (LiteralInfoFromURI, LiteralInfoOf with explicit Reference.type none / Patient / Observation, IdentityFromReference) on one string, for 6 string forms; each call's outcome must equal its outcome on a string no earlier call has seen", Run: func(i int, r *core.Rec) {
+					nseq := c10Count(len(c19HistCalls), 3)
+					form := c19HistForms[i/nseq]
+					seq := c10Seq(i%nseq, len(c19HistCalls))
+					c19HistCounter++
+					hid := form.id(1000000 + c19HistCounter)
+					u := form.mk(hid) // the string this history works on
+					var hist []string
+					for k, ci := range seq {
+						call := c19HistCalls[ci]
+						got := call.do(u)
+						// the same call on a string that is new to the process
+						c19HistCounter++
+						fid := form.id(5000000 + c19HistCounter)
+						want := call.do(form.mk(fid))
+						r.Eval()
+						r.Eval()
+						got, want = strings.ReplaceAll(got, hid, "<N>"), strings.ReplaceAll(want, fid, "<N>")
+						hist = append(hist, call.name)
+						r.State("parse-history|" + form.name + "|" + call.name)
+						r.Nontrivial(form.name, strings.Join(hist, ";"), got)
+						if got != want {
+							r.Fail("parse-history|"+form.name+"|"+call.name+"|outcome-depends-on-earlier-parses", core.W{"string": u, "history": hist, "position": k, "outcome": got, "on_a_fresh_string": want})
+						}
+					}
+				}},
 				{Name: "identity-round-trip", N: len(types), Note: fmt.Sprintf("%d types x 14 ids x 6 versions x 10 bases", len(types)), Run: func(i int, r *core.Rec) {
 					tn := types[i]
 					for _, id := range c19IDs {
